@@ -308,6 +308,20 @@ def gen_exhaustive(seed, world, cfgname, seq):
             "seq": list(seq), "steps": steps}
 
 
+def gen_recovery(seed, world, cfgname, p1, p2, picks):
+    """Crash-recovery sweep: the call on problem p1 is crashed at `picks` sampled line events
+    (fresh object each time), then problem p2 is solved fault-free on the SAME object and
+    compared with the pristine world."""
+    name, cls, cfg, meth, pool = CONFIG_BY_NAME[cfgname]
+    sw = {"k": "sweep", "cls": cls, "cfg": cfg, "picks": picks, "pick_seed": seed,
+          "focus": ["solve", "_GMRESQsparse", "compute", "compute_column_variant", "compute_row_variant",
+                    "_rsp_step_column", "_solve_spd_quat", "_build_right_preconditioner"],
+          "call": {"k": "call", "obj": "s0", "meth": meth, "args": pool[p1], "client": 0, "cfgname": cfgname},
+          "then": [{"k": "call", "obj": "s0", "meth": meth, "args": pool[p2], "client": 1, "cfgname": cfgname}]}
+    return {"prop": PROP, "seed": seed, "world": world, "mode": "recovery", "cfgname": cfgname,
+            "seq": [p1, p2], "steps": [{"k": "rng", "op": "seed", "v": 4321}, sw]}
+
+
 def _random_problem(R, cfgname):
     name, cls, cfg, meth, pool = CONFIG_BY_NAME[cfgname]
     if R.random() < 0.6:
@@ -318,6 +332,11 @@ def _random_problem(R, cfgname):
         A = SQ(n, s, [round(R.uniform(0.3, 1.0), 4) for _ in range(n)])
         if R.random() < 0.25:
             A = SP(A)
+        x = R.random()
+        if x < 0.12:    # requests that pass the shape guards and fail inside the iteration
+            return [A, {"gen": "ravel", "of": G(n, 1, s + 1)}]
+        if x < 0.24:
+            return [A, G(n, 2, s + 1)]
         return [A, G(n, 1, s + 1)]
     if name.startswith("deep"):
         m, d0 = R.randint(1, 4), R.randint(1, 3)
@@ -405,6 +424,15 @@ def gen_jobs(base_seed, tier, budget=None):
                 jobs.append({"seed": base_seed * 10 ** 6 + 800000 + sid,
                              "trace": gen_exhaustive(base_seed * 10 ** 6 + 800000 + sid, w, cfgname, seq)})
             sid += 1
+    # crash recovery, per configuration: crash a call on a small problem at sampled line
+    # events, then a larger problem on the same object (and the reverse order)
+    picks = 10 if tier == "quick" else 40
+    for cfgname, *_ in CONFIGS:
+        for (p1, p2) in ((0, 2), (1, 2), (2, 1)) if tier == "quick" else ((0, 2), (1, 2), (2, 1), (3, 2), (1, 0), (2, 3)):
+            for w in exh_worlds:
+                jobs.append({"seed": base_seed * 10 ** 6 + 700000 + sid,
+                             "trace": gen_recovery(base_seed * 10 ** 6 + 700000 + sid, w, cfgname, p1, p2, picks)})
+            sid += 1
     n_rand = budget if budget is not None else (400 if tier == "quick" else 12000)
     for i in range(n_rand):
         seed = base_seed * 10 ** 6 + i
@@ -426,6 +454,14 @@ class Hooks(BaseHooks):
     def after_step(self, ex, i, step, rec, viol):
         k = rec["k"]
         if k not in ("call", "fn", "repeat"):
+            return
+        if self.trace.get("mode") == "recovery":
+            # sub-steps of a crash-recovery sweep: only argument immutability is judged here;
+            # the follow-up calls are compared with the pristine world in ref_requests
+            if rec["args_changed"]:
+                viol.append(V("args_mutated", i, f"{step.get('meth')} changed argument(s) {rec['args_changed']} in place"))
+            if (step.get("fault") or {}).get("line") and rec.get("fault_fired"):
+                self.cnt["fault_raised" if rec["ok"] == "exc" else "fault_swallowed"] += 1
             return
         src = self.trace["steps"][step["of"]] if k == "repeat" else step
         name = src.get("fn") or f"{ex.objcfg[src['obj']][0]}.{src['meth']}"
@@ -459,6 +495,22 @@ class Hooks(BaseHooks):
 
     def ref_requests(self, ex):
         out = []
+        for i, rec in enumerate(ex.recs):
+            if rec["k"] != "sweep" or not rec.get("then"):
+                continue
+            sw = self.trace["steps"][i]
+            new_step = {"k": "new", "obj": sw["call"]["obj"], "cls": sw["cls"], "cfg": sw.get("cfg", {})}
+            for tj, then in enumerate(sw["then"]):
+                obs = []
+                for ob in rec["then"]:
+                    if ob["j"] != tj:
+                        continue
+                    first = dict(sw["call"], fault={"line": ob["k"]})
+                    obs.append(dict(ob, explicit=[new_step, first, then]))
+                    self.cnt["after_fault_calls"] += 1
+                req = {"step": {k: v for k, v in then.items() if k in ("k", "obj", "meth", "args", "kwargs")},
+                       "rng_state": ex.sweep_states[i], "cls": sw["cls"], "cfg": sw.get("cfg", {}), "compare": obs}
+                out.append((i, req))
         for i in self.need:
             step = self.trace["steps"][i]
             src = self.trace["steps"][step["of"]] if step["k"] == "repeat" else step
@@ -513,6 +565,10 @@ def finding_tags(trace, v):
     if st.get("k") == "repeat":
         st = trace["steps"][st["of"]]
     tags = {"oracle": v["oracle"]}
+    if st.get("k") == "sweep":
+        tags["cls"] = st["cls"].split(".")[-1]
+        tags["meth"] = st["call"].get("meth")
+        return tags
     if "obj" in st:
         for s in trace["steps"]:
             if s["k"] == "new" and s["obj"] == st["obj"]:
@@ -529,8 +585,8 @@ def violation_target(trace, v):
 
 
 def signature(trace, result):
-    if trace.get("mode") == "exhaustive":
-        return f"exh:{trace['cfgname']}:{trace['seq']}:{trace['world']}"
+    if trace.get("mode") in ("exhaustive", "recovery"):
+        return f"{trace['mode']}:{trace['cfgname']}:{trace['seq']}:{trace['world']}"
     sig = []
     for s in trace["steps"]:
         k = s["k"]
@@ -548,6 +604,8 @@ def signature(trace, result):
 
 
 def nontrivial(trace, result):
+    if trace.get("mode") == "recovery":
+        return bool((result.get("stats") or {}).get("after_fault_calls"))
     per_obj = {}
     last_new = {}
     event_between = False
